@@ -593,3 +593,17 @@ Proof.
     as [(o1 & E1 & N1 & _) (o2 & E2 & Ho & N2 & _)].
   split; [exists o1; split; assumption|exists o2; split; [exact E2|split; assumption]].
 Qed.
+
+(* ---------- ... and depth() of the result is the depth of the remaining circuit ---------- *)
+Theorem transformed_program_depth fuel q :
+  wf_flat env0 q = true -> (ldepth q < fuel)%nat ->
+  exists o, run_visit false true [] fuel q = Ok o /\ forall r, dof (o_state o) r = depth_after rsrc_eqb (evs_of q) r.
+Proof.
+  intros H Hf. destruct (wf_flat_is_accepted_and_a_fixpoint fuel q H Hf) as [(o1 & E1 & _ & _ & D1) _]. exists o1. split; assumption.
+Qed.
+
+Corollary removal_depth_is_depth_of_what_remains fuel k p :
+  wf_flat env0 p = true -> has_empty_if (remove_kind k p) = false -> (ldepth (remove_kind k p) < fuel)%nat ->
+  exists o, run_visit false true [] fuel (remove_kind k p) = Ok o /\
+            forall r, dof (o_state o) r = depth_after rsrc_eqb (evs_of (remove_kind k p)) r.
+Proof. intros H He Hf. apply transformed_program_depth; [now apply removal_keeps_wellformed|exact Hf]. Qed.
